@@ -781,10 +781,13 @@ class Circuit:
         if self.is_current_task():
             raise EdzedInvalidState("Cannot await the simulator task from the simulator task.")
         self.abort(asyncio.CancelledError('shutdown'))
-        try:
-            await self._simtask
-        except asyncio.CancelledError:
-            pass
+        # asyncio.wait() does not cancel the awaited task when the caller is cancelled:
+        # a cancellation of the caller must not abort the cleanup
+        await asyncio.wait([self._simtask])
+        if not self._simtask.cancelled():
+            err = self._simtask.exception()
+            if err is not None:
+                raise err
 
 
 class _TerminatingSignal:
